@@ -104,18 +104,19 @@ Definition find_path_one (e : path_env) (ball_fwd ball_inv : list (list Z) * nat
     match r with None => Ok None | Some p => Ok (Some (rev p)) end.
 
 Record fp_case := {
-  fc_g : gdesc; fc_inv_mats : list (list (list Z)); fc_batch : Z; fc_depth : N; fc_explore : Z;
-  fc_queries : list (list Z * result (option (list nat)));
+  fc_g : gdesc; fc_inv_mats : list (list (list Z)); fc_batch : Z;
+  (* each query: (max_diameter or 50, max_layer_size_to_explore or 10**6, start state, observed result);
+     the cached ball is recomputed whenever these BFS arguments change, so it is a function of the current call *)
+  fc_queries : list (N * Z * list Z * result (option (list nat)));
 }.
 Definition check_fp_case (c : fp_case) : bool :=
   match env_of (fc_g c) (fc_inv_mats c) with
   | None => false
   | Some e =>
       let G := pe_G e in let Gi := pe_Ginv e in
-      let ballf := ball_of G (fc_batch c) (fc_depth c) (fc_explore c) [g_central (fc_g c)] in
-      let balli := ball_of Gi (fc_batch c) (fc_depth c) (fc_explore c) [g_central (fc_g c)] in
-      match (if inv_closed G then ballf else balli) with
-      | Err _ => false
-      | Ok ball => forallb (fun '(s, r) => path_res_eqb (find_path_one e ball ball s) r) (fc_queries c)
-      end
+      forallb (fun '(depth, explore, s, r) =>
+        match ball_of (if inv_closed G then G else Gi) (fc_batch c) depth explore [g_central (fc_g c)] with
+        | Err _ => false
+        | Ok ball => path_res_eqb (find_path_one e ball ball s) r
+        end) (fc_queries c)
   end.
